@@ -85,6 +85,12 @@ def document_shaping(model):
                     if norm(e.value) in ('[%s]' % gparam, '(%s,)' % gparam, 'list((%s,))' % gparam):
                         wrapped = True      # a single grid wrapped into a one-element sequence
                         continue
+                    v_ = norm(e.value)
+                    if re.match(r'^(list\()?filter\(None, %s\)\)?$' % re.escape(gparam), v_) or \
+                            re.match(r'^[\[(](\w+) for \1 in %s if \1[\])]$' % re.escape(gparam), v_) or \
+                            re.match(r'^(list\()?filter\(bool, %s\)\)?$' % re.escape(gparam), v_):
+                        out['truthiness_filter'] = e      # grids tested for truth: a grid without rows is falsy
+                        continue
                     raise AnalysisError('dump(): parameter %s is rebound (`%s`)' % (gparam, norm(e)[:60]))
                 env[name] = _resolve(norm(e.value), env)
         rv = p.end_node.value if isinstance(p.end_node, ast.Return) else None
